@@ -41,6 +41,40 @@ CLAIMS = {
             "flag is True and under it __new__ returns a fresh object without running a matcher (each distinct __new__ interpreted abstractly, "
             "flag forwarding checked); every attribute __getnewargs__ reads is assigned at every object.__new__ construction site; no class "
             "overrides the copy protocol otherwise. Not decided: equality of the copy's text/structure.", "DESIGN.md §4 C18"),
+    "C04": ("path-sensitive dataflow on the quote state; structural lints of the ';' splitter and of splitquote; regex obligations",
+            "Decides necessary conditions of layout independence: the quote state of handle_inline_comment is threaded through every "
+            "continuation loop and a comment ends character context; ';' is split on the tokenised line only with label/name re-extraction "
+            "in the right order and the replace map undone; splitquote types quoted regions as String and case-folds only unquoted text; "
+            "label/construct-name extraction obligations. Not decided: tree equality over the layout space.", "DESIGN.md §4 C04"),
+    "C05": ("bounded-exhaustive decision of column predicates and the detector regex (finite tables), interpreted from the AST",
+            "Decides: the form detector votes free for no label field/comment/continuation line and for every statement starting in columns "
+            "1-5 (354 lines); _is_fix_comment/_is_fix_cont agree with the property's comment introducers and continuation marks; the label "
+            "conversion is total and blank-insensitive on columns 1-5 (242 fields); quote state threading; splitquote typing. Not decided: "
+            "tree equality of the two renderings.", "DESIGN.md §4 C05"),
+    "C07": ("consistency lint on message construction; who-raises-with-what; shared counter/span dataflow",
+            "Decides (narrow): a quoted source line is source_lines[linecount-1] of the reader whose linecount is printed; every "
+            "FortranSyntaxError is raised with the function's reader; the line counter moves by one per line taken/given back on every path "
+            "and item spans are tied to it. Not decided: how far look-ahead advanced the counter when the error is raised.", "DESIGN.md §4 C07"),
+    "C11": ("per-call-site abstract interpretation of the block engine (class list, consumed=>restored typestate); item typestate; sibling cross-check",
+            "Decides: comment/include/preprocessor (and under process_directives, directive) classes are in the class list tried at every "
+            "position of all 38 block-engine instances and around program units, both collectors in every round; every reader item and node "
+            "is kept or given back on every path and a no-match restores everything; the ignore filter is the single exit of the item loop; "
+            "Directive==Comment code; a comment ends character context; comments queue behind their statement. Not decided: exact placement "
+            "for every position.", "DESIGN.md §4 C11"),
+    "C12": ("queue-discipline table; path-sensitive counting; event abstraction (read/append/endline) over get_source_item",
+            "Decides: who pushes/pops which end of the item queue (';' parts reversed to the front, give-back forwarded to the include reader, "
+            "no foreign queue access); every look-ahead is undone; linecount +-1 per line on every path; span start is the counter after the "
+            "first read and span end the line of the last appended text on every path to every Line construction. Not decided: item "
+            "text/span equality for every layout.", "DESIGN.md §4 C12"),
+    "C13": ("structural lint of the include search; shared queue and class-list analyses; regex obligations",
+            "Decides: directories searched in order with a break at the first existing file; unresolved include returned as an item and "
+            "Include_Stmt tried at every position in both directive modes; nested reader gets path/include_dirs/ignore_comments; get/put "
+            "symmetry across readers; INCLUDE-line regex obligations. Not decided: tree equality for every split point.", "DESIGN.md §4 C13"),
+    "C15": ("statically folded regex literals decided by enumeration; gating/dominance lint; straight-line interpretation of the replacement",
+            "Decides: the three sentinel regexes accept exactly the property's sentinel forms and are compiled for the right source forms "
+            "(FortranFormat's properties interpreted for the 4 forms); the replacement puts exactly two blanks at the sentinel; every "
+            "replacement is gated by the enabling flag and precedes comment classification on both routes. Not decided: tree equality.",
+            "DESIGN.md §4 C15"),
 }
 
 NA = {
